@@ -182,3 +182,126 @@ def master_for(lex):
     if k not in _masters or _masters[k][0] is not lex:
         _masters[k] = (lex, Master(lex))
     return _masters[k][1]
+
+
+# ---- ambiguity of unbounded loops (catastrophic backtracking) ------------------------------------------------------------------------
+
+def _split_top_level(body):
+    """split a group body on top-level `|`"""
+    out, depth, cur, i, in_class = [], 0, '', 0, False
+    while i < len(body):
+        c = body[i]
+        if c == '\\' and i + 1 < len(body):
+            cur += body[i:i + 2]
+            i += 2
+            continue
+        if in_class:
+            if c == ']':
+                in_class = False
+            cur += c
+        elif c == '[':
+            in_class = True
+            cur += c
+            if i + 1 < len(body) and body[i + 1] == '^':
+                cur += '^'
+                i += 1
+            if i + 1 < len(body) and body[i + 1] == ']':
+                cur += ']'
+                i += 1
+        elif c == '(':
+            depth += 1
+            cur += c
+        elif c == ')':
+            depth -= 1
+            cur += c
+        elif c == '|' and depth == 0:
+            out.append(cur)
+            cur = ''
+        else:
+            cur += c
+        i += 1
+    out.append(cur)
+    return out
+
+
+def unbounded_groups(pattern):
+    """(body text, quantifier) of every parenthesised group that is repeated without an upper bound"""
+    res = []
+    stack = []
+    i, in_class = 0, False
+    while i < len(pattern):
+        c = pattern[i]
+        if c == '\\':
+            i += 2
+            continue
+        if in_class:
+            if c == ']':
+                in_class = False
+        elif c == '[':
+            in_class = True
+            if i + 1 < len(pattern) and pattern[i + 1] == '^':
+                i += 1
+            if i + 1 < len(pattern) and pattern[i + 1] == ']':
+                i += 1
+        elif c == '(':
+            stack.append(i)
+        elif c == ')' and stack:
+            st = stack.pop()
+            q = pattern[i + 1:i + 2]
+            m = re.match(r'\{(\d*),(\d*)\}', pattern[i + 1:])
+            if q in ('*', '+') or (m and m.group(2) == ''):
+                inner = pattern[st + 1:i]
+                hdr = re.match(r'\?(?:[:>]|P<\w+>)', inner)
+                if hdr:
+                    inner = inner[hdr.end():]
+                if not re.match(r'\?[=!<]', pattern[st + 1:st + 3]):
+                    res.append((inner, q or m.group(0)))
+        i += 1
+    return res
+
+
+def ambiguous_loop(body, flags=0, maxlen=5):
+    """A repeated group is ambiguous when some string can be split into iterations in two different ways; on an input that then fails to match, a backtracking
+    regex engine tries all splits (exponential time).  Exhaustive over the strings up to `maxlen` over the characters the pattern mentions.
+    -> a witness (string, number of splits) or None"""
+    alts = _split_top_level(body)
+    if len(alts) == 1 and not re.search(r'(?<!\\)[*+]|\{\d+,\}', re.sub(r'\[(?:\\.|[^\]])*\]', 'C', body)):
+        return None        # one alternative without inner repetition: a single way
+    lits = set(re.findall(r'\\([nrt\\\'"`.\-;/*])', body)) | set(re.findall(r'(?<!\\)([\'"`;\-/@#])', body))
+    alpha = []
+    for ch in sorted(lits):
+        alpha.append({'n': '\n', 'r': '\r', 't': '\t'}.get(ch, ch))
+    for ch in ('a', ' ', '\n'):
+        if ch not in alpha:
+            alpha.append(ch)
+    alpha = alpha[:6]
+    import itertools
+    comp = {}
+
+    def ends(alt, s, pos):
+        out = []
+        for end in range(pos + 1, len(s) + 1):
+            key = (alt, len(s) - end)
+            rx = comp.get(key)
+            if rx is None:
+                try:
+                    rx = comp[key] = re.compile('(?:%s)(?=[\\s\\S]{%d}\\Z)' % (alt, len(s) - end), flags)
+                except re.error as e:
+                    raise AnalysisError(f'cannot compile alternative {alt!r} of a repeated group: {e}')
+            if rx.match(s, pos):
+                out.append(end)
+        return out
+    for L in range(1, maxlen + 1):
+        for t in itertools.product(alpha, repeat=L):
+            s = ''.join(t)
+            ways = [0] * (L + 1)
+            ways[0] = 1
+            for pos in range(L):
+                if not ways[pos]:
+                    continue
+                for alt in alts:
+                    for end in ends(alt, s, pos):
+                        ways[end] += ways[pos]
+            if ways[L] >= 2:
+                return s, ways[L]
+    return None
